@@ -9,7 +9,53 @@ From Coq Require Import List NArith ZArith Bool Arith Lia Permutation.
 Import ListNotations.
 From LC.Base Require Import Utf8 Float64 Sort SortProof Float64Proof.
 From LC.V2 Require Import Tok SSet Match ScoringProof MatchND MatchWF.
-From LC.V2 Require Import Glue.
+From LC.V2 Require Import Glue ScoringNoD3.
+
+(* THE PROPERTY, composed end to end, for ANY valid edit script - entries with an empty text included (go-diff emits them on repetitive text): an accepted match has Confidence <= fl(1 - fl(L/|K|)) for the true word-level Levenshtein distance L between the document and the reported span; a rejected one has confidence +0; Confidence = 1.0 only if span = document *)
+(* statement as proved in V2/ScoringNoD3.v (written out; checked against the lemma by exact) *)
+Theorem C02_confidence_bound_any_valid_script :
+  forall (C : config) (d : cdoc) (s e : N) (raw : list diff) (R : list N) (lname : str) 
+           (cnf : f64) (so eo : Z),
+         cf_diff C (cd_key d) s e = Some raw ->
+         valid_script raw R (cd_ids d) ->
+         wf_script (cf_word C) raw ->
+         key_part (cd_key d) 1 = Some lname ->
+         score C d s e = Ok (cnf, so, eo) ->
+         0 < length (cd_ids d) ->
+         (Z.of_nat (length (cd_ids d)) < 2 ^ 53)%Z ->
+         (Z.of_nat (length R) < 2 ^ 53)%Z ->
+         let K := cd_ids d in
+         let R' := firstn (length R - Z.to_nat so - Z.to_nat eo) (skipn (Z.to_nat so) R) in
+         (score_scan (cf_is_digit C) lname (trimmed C d raw) [] [] = None ->
+          fle cnf (conf (Z.of_nat (length K)) (Z.of_nat (lev R' K))) = true) /\
+         ((exists c : Z, score_scan (cf_is_digit C) lname (trimmed C d raw) [] [] = Some c) ->
+          cnf = fzero /\ so = 0%Z /\ eo = 0%Z /\ R' = R) /\
+         (lev R' K <= length K -> fle cnf (conf (Z.of_nat (length K)) (Z.of_nat (lev R' K))) = true) /\
+         (feq cnf fone = true -> R' = K).
+Proof. exact (@C02_confidence_bound_noD3). Qed.
+Print Assumptions C02_confidence_bound_any_valid_script.
+
+(* the case analysis behind it, without the no-empty-entry hypothesis *)
+Theorem C02_distance_and_span_any_valid_script : forall C d s e raw R lname conf so eo,
+  cf_diff C (cd_key d) s e = Some raw ->
+  valid_script raw R (cd_ids d) ->
+  wf_script (cf_word C) raw ->
+  key_part (cd_key d) 1 = Some lname ->
+  score C d s e = Ok (conf, so, eo) ->
+  ((exists c, score_scan (cf_is_digit C) lname (trimmed C d raw) [] [] = Some c /\
+              (c = (-1)%Z \/ c = (-2)%Z \/ c = (-3)%Z)) /\
+   conf = fzero /\ so = 0%Z /\ eo = 0%Z)
+  \/
+  (score_scan (cf_is_digit C) lname (trimmed C d raw) [] [] = None /\
+   exists D : nat,
+     Z.of_nat D = lev_word (trimmed C d raw) /\
+     conf = confidence (Z.of_nat (length (cd_ids d))) (Z.of_nat D) /\
+     (0 <= so)%Z /\ (0 <= eo)%Z /\
+     Z.to_nat so + Z.to_nat eo <= length R /\
+     let R' := firstn (length R - Z.to_nat so - Z.to_nat eo) (skipn (Z.to_nat so) R) in
+     lev R' (cd_ids d) <= D /\ (D = 0 -> R' = cd_ids d)).
+Proof. exact score_sound_cases_noD3. Qed.
+Print Assumptions C02_distance_and_span_any_valid_script.
 
 (* THE PROPERTY, composed end to end (scoring model + float64): with R' the span minus the reported offsets and K the document, an accepted match has Confidence <= fl(1 - fl(L/|K|)) for the true word-level Levenshtein distance L = lev R' K; a rejected one has confidence +0; Confidence = 1.0 only if R' = K *)
 (* statement as proved in V2/Glue.v (written out; checked against the lemma by exact) *)
